@@ -15,6 +15,8 @@ Set-up table : spec/Setup.tla is the option-resolution machine of `_prep_afqmc` 
                trial branch, propagator branch, failure precedence); harness/setupopt.py model-checks it over every
                source x directory x given-option combination and replays TLC's expected records into the real routine
                in real directories (valid / absent / corrupt files), plus the fixed-point replay of the completed options.
+Launcher     : spec/Launch.tla (run_afqmc / run_afqmc_fp <-> shell command <-> child, through options.bin and ene_err.txt);
+               every behaviour TLC finds is replayed through the real functions (harness/launch.py).
 Python never decides a predicate: it draws seeded inputs, calls pyscf and the library, and converts float
 differences to fixed point.  pyscf is the trusted oracle for molecular SCF/FCI/CC energies.
 """
@@ -27,7 +29,7 @@ from pathlib import Path
 
 import numpy as np
 
-from .. import setupopt
+from .. import launch, setupopt
 from ..core import Check, MachineryError, repo_setup
 
 LEVEL = "other"
@@ -227,7 +229,9 @@ def build_pyscf(spec):
     mol = gto.M(atom=[(a, tuple(p)) for a, p in m["atom"]], basis=m["basis"], spin=m["spin"], verbose=0)
     mf = {"rhf": scf.RHF, "rohf": scf.ROHF, "uhf": scf.UHF}[spec["mf"]](mol)
     if spec["df"]:
-        mf = mf.density_fit(auxbasis="weigend")        # def2-universal-jkfit: defined for every element used here
+        # True: def2-universal-jkfit (defined for every element used here); "default": pyscf chooses - for a basis
+        # without a predefined JKFIT set (sto-6g) that is an even-tempered set that exists only on with_df.auxmol
+        mf = mf.density_fit(auxbasis="weigend") if spec["df"] is True else mf.density_fit()
     mf.conv_tol = 1e-12
     mf.conv_tol_grad = 1e-8
     mf.max_cycle = 300
@@ -405,6 +409,7 @@ def molecule_plan(chk: Check):
     # density fitting AND a frozen core: the core potential must come from the same (density-fitted) integrals as the
     # Cholesky vectors - tight threshold, so that a 1e-5 inconsistency between the two is visible
     add("df", "LiH", df=True, nfrozen=1, chol_cut=1e-8)
+    add("df", "H4", basis="sto-6g", df="default", chol_cut=1e-5)
     add("df", "OH", spin=1, mf="rohf", df=True, nfrozen=1, trial="uhf", walker_type="uhf", chol_cut=1e-8)
     add("custom-basis", "OH", spin=1, mf="rohf", trial="uhf", walker_type="uhf", basis_coeff="lowdin", chol_cut=1e-5)
     # a very tight threshold on a system that needs Cholesky vectors below 1e-6: "within the Cholesky threshold" then means 2e-8
@@ -757,6 +762,9 @@ def run(chk: Check):
     # the whole option-resolution machine of _prep_afqmc (spec/Setup.tla): every options source, directory state
     # and given-option combination model-checked, a seeded sample + failure factorial replayed into the real routine
     setupopt.run(chk)
+    # the launcher protocol run_afqmc <-> shell <-> child (spec/Launch.tla): all 384 behaviours replayed through the
+    # real functions with shim executables; outside the listed properties (divergences only)
+    launch.run(chk)
 
     plan = lattice_plan(chk)
     oracle = lattice_oracle(chk, plan)
